@@ -400,6 +400,9 @@ U('C13', 'c13.abacus.loop', SQRT_ABACUS, 'pre_valid1', None, cxx='fixedmath::det
 U('C13', 'c13.abacus.small.bounded', SQRT_ABACUS, 'pre_c13_small', 'post_sqrt', cxx='fixedmath::detail::sqrt_abacus($1)',
   unwind=20, backends=('kissat', 'cadical'), timeout=600, bounded='x.v < 2^14, loop unwound 20 times with unwinding assertion', note='BOUNDED (x.v < 2^14, loop unwound 20 times with unwinding assertion): real-square postcondition, not counted as the unbounded proof')
 U('C13', 'c13.pwr4', PWR4, 'pre_anyu', 'post_pwr4', cxx='fixedmath::detail::highest_pwr4_clz($1)')
+# the same function through the INT back end: no new fact (its contract is proved by the unit above), but it makes the translation-validation
+# guard exercise the INT semantics of clz and of shifts by a symbolic distance, which the hypot accuracy units (C14) rely on
+U('C13', 'c13.pwr4.int', PWR4, 'pre_anyu', None, cxx='fixedmath::detail::highest_pwr4_clz($1)', **INTQ)
 U('C13', 'c13.lem.sq_step', 'lem_sq_step', 'pre_sq_step', None, lemma=True, cxx='lem_sq_step($1,$2)', backends=('z3', 'cvc5'), timeout=300)
 U('C13', 'c13.lem.exit', 'lem_sqrt_exit', 'pre_sqrt_exit', None, lemma=True, cxx='lem_sqrt_exit($1,$2)', engine='int', timeout=300)
 U('C13', 'c13.lem.exact_on_squares', 'lem_sqrt_sq', 'pre_sqrt_sq', None, lemma=True, cxx='lem_sqrt_sq($1,$2,$3)', engine='int', timeout=300)
@@ -612,23 +615,37 @@ E('C12', c12_scan_abacus)
 E('C12', c12_scan_std)
 
 # ----------------------------------------------------------------------------- C14
-prop('C14', 'other',
+prop('C14', 'proof',
      'Proved for all |a|,|b| < 2^31 under both sqrt configurations: hypot returns a finite non-negative value, every '
      'shift is valid and uhi*uhi + ulo*ulo never wraps (CBMC with the unsigned-overflow check switched on for this '
      'unit, sqrt replaced by a linear consequence of its one-ulp contract). hypot(a,b) == hypot(b,a) == hypot(|a|,|b|) == '
      'hypot(-a,b) == hypot(a,-b): cut-point lemma -- all five calls reach the point after operand normalisation with the '
      'same (uhi, ulo) (ghost observations compared in the lemma contract, CBMC) and the code after that point reads '
-     'neither parameter (dataflow check on the AST), so the results are equal by determinism. The accuracy clause '
-     '(2 ulp / relative 1.5e-4 against the real root of a^2+b^2) is a non-linear fact over three scaling branches that '
-     'did not close in NIA; it is decided by a bounded native stand-in (random log-uniform pairs, all power-of-two '
-     'boundary pairs, the band that used to wrap) under both algorithms.',
-     technique='CBMC contracts + kissat (no wrap, valid shifts, non-NaN, non-negative), cut-point lemma with ghost observations for symmetry; bounded native stand-in for accuracy',
-     assumptions=['sqrt contract: one-ulp (proved for abacus in C13/C12 lemma, assumed for std::sqrt)', 'long double sqrtl as the oracle of the stand-in'])
+     'neither parameter (dataflow check on the AST), so the results are equal by determinism. The accuracy clause is '
+     'stated exactly in integers -- with S = a.v^2 + b.v^2 the real hypotenuse is sqrt(S) raw units, so "within 2 ulp" is '
+     '(h-2)^2 <= S <= (h+2)^2 and "within a relative 1.5e-4" is 19997^2 S <= (20000 h)^2 <= 20003^2 S -- and PROVED over '
+     'the real code in the INT back end (non-linear integer arithmetic, cvc5/z3): sqrt enters by its one-ulp contract, '
+     'the operands are taken as 0 <= b <= a (the general case is the symmetry lemma) and the domain is cut into 48 slices '
+     'by the bit length of a.v, which fixes every shift distance; per slice there is one obligation per return statement '
+     'and per half of the inequality, a proved value hint for the clz result, and cone-of-influence slicing of the query. '
+     'The native scan (random log-uniform pairs, power-of-two boundary pairs, the band that used to wrap; against long '
+     'double sqrtl) is kept as an independent cross-check under both algorithms.',
+     technique='CBMC contracts + kissat (no wrap, valid shifts, non-NaN, non-negative), cut-point lemma with ghost observations for symmetry; INT back end (NIA, 48 bit-length slices, per-return-path obligations) for the accuracy clause; native scan as cross-check',
+     assumptions=['sqrt contract: within one ulp of the real root (for abacus: floor-root contract proved in C13 and lemma c12.sqrt_1ulp.abacus; for std::sqrt: assumed)',
+                  'long double sqrtl as the oracle of the cross-check scan'])
 HYPOT = '_ZN9fixedmath5hypotENS_7fixed_tES0_'
 K_SQRT_HYP = (SQRT, 'pre_sqrt_hyp', 'post_sqrt_hyp')
 for cfg in ('abacus', 'stdsqrt'):
     U('C14', 'c14.hypot.' + cfg, HYPOT, 'pre_c14', 'post_hypot', replace=[K_SQRT_HYP], cfg=cfg, cxx='fixedmath::hypot($1,$2)',
       extra_flags=['--unsigned-overflow-check'], ignore_desc=r'overflow on unsigned (-|unary minus|shl)', backends=MULBE, timeout=900, native_post='native_hypot_ok')
+# accuracy clause, deductively (spec/c14.hpp): 48 slices by the bit length of a.v, 0 <= b <= a
+K_SQRT_HYP_1ULP = (SQRT, 'pre_sqrt_hyp', 'post_sqrt_hyp_1ulp')
+U('C14', 'c14.sqrt_contract', 'lem_c14_sqrt_contract', 'pre_c14_sqrtc', None, lemma=True, cxx='lem_c14_sqrt_contract($1,$2)', **INTQ)
+for cfg, _tier in (('abacus', 'quick'), ('stdsqrt', 'thorough')):
+    for _L in range(48):
+        U('C14', 'c14.acc.%s.L%02d' % (cfg, _L), HYPOT, 'pre_c14_acc', 'post_hypot_acc', replace=[K_SQRT_HYP_1ULP], cfg=cfg, engine='int', timeout=300,
+          pre_consts=[_L], split_returns=True, post_split=('post_hypot_acc_lo', 'post_hypot_acc_hi'), cxx='fixedmath::hypot($1,$2)', tier=_tier,
+          note='accuracy clause for 0 <= b <= a, bit length of a.v == %d' % _L)
 U('C14', 'c14.sqrt_bound', 'lem_c14_sqrt_bound', 'pre_c14_sqrtb', None, lemma=True, cxx='lem_c14_sqrt_bound($1,$2)', **INTQ)
 
 def hypot_roles(fn_node):
@@ -701,11 +718,11 @@ U('C14', 'c14.symmetry.cut', 'lem_c14_cut', 'pre_c14', None, lemma=True, cxx='le
 
 
 def c14_scan_abacus(tier, seed):
-    return _native.run_native('c14_hypot_scan_abacus', 'c14_hypot_scan.cc', 'abacus', [seed, 5000000 if tier == 'quick' else 200000000], label='bounded stand-in (not proved): accuracy clause of C14, abacus sqrt')
+    return _native.run_native('c14_hypot_scan_abacus', 'c14_hypot_scan.cc', 'abacus', [seed, 5000000 if tier == 'quick' else 200000000], label='bounded cross-check scan (not a proof; the accuracy clause is proved by the c14.acc units): abacus sqrt')
 
 
 def c14_scan_std(tier, seed):
-    return _native.run_native('c14_hypot_scan_std', 'c14_hypot_scan.cc', 'stdsqrt', [seed, 5000000 if tier == 'quick' else 200000000], label='bounded stand-in (not proved): accuracy clause of C14, std::sqrt')
+    return _native.run_native('c14_hypot_scan_std', 'c14_hypot_scan.cc', 'stdsqrt', [seed, 5000000 if tier == 'quick' else 200000000], label='bounded cross-check scan (not a proof; the accuracy clause is proved by the c14.acc units under the assumed one-ulp contract of std::sqrt): real std::sqrt')
 
 
 E('C14', c14_scan_abacus)
